@@ -4,7 +4,7 @@ from common import wire, all_strings
 
 THEOREMS = ['Pylx.C20_pos_line_col', 'Pylx.C20_line_starts', 'Pylx.C20_injective']
 RULE = ('LINE: all strings up to the length bound over {a, \\n, \\r, space} x every position 0..len x offset settings '
-        '(plus random longer strings); sig = (line index, column) class; oracle: pos == start_of_line + col - offset and '
+        '(plus random longer strings); sequences of lookups in arbitrary order on one calculator / walker object; sig = (line index, column) class; oracle: pos == start_of_line + col - offset and '
         'no newline between; also LatexWalker.pos_to_lineno_colno and located strict parse errors')
 TRUSTED = ['bisect_right modelled by its specification (number of sorted entries <= pos)']
 ASSUMPTIONS = ['offsets are integers']
@@ -26,6 +26,18 @@ def cases(tier, rng):
         o = rng.choice(OFFS)
         for p in sorted(set([0, L] + [rng.randint(0, L) for _ in range(4)])):
             yield {'k': 'line', 's': s, 'p': p, 'o': list(o)}
+    # several lookups on ONE calculator / walker, in arbitrary order (the answer must not depend on earlier lookups)
+    m2 = 400 if tier == 'quick' else 8000
+    for _ in range(m2):
+        L = rng.randint(3, 30)
+        s = ''.join(rng.choice('ab\n\n\n \r') for _ in range(L))
+        o = rng.choice(OFFS)
+        k = rng.randint(2, 8)
+        order = rng.choice(['rand', 'desc', 'ends'])
+        if order == 'rand': ps = [rng.randint(0, L) for _ in range(k)]
+        elif order == 'desc': ps = sorted(set(rng.randint(0, L) for _ in range(k)), reverse=True)
+        else: ps = [L, 0, L, rng.randint(0, L), 0]
+        yield {'k': 'seq', 's': s, 'ps': ps, 'o': list(o), 'via': rng.choice(['calc', 'walker'])}
     # parse errors: location = pos_to_lineno_colno(pos)
     faulty = ['}', 'a\n}', 'a\n\n{b', '\\begin{x}\n\na', 'ab\n$x\n', '\n\n\\end{y}', 'x\n\\(y\n\\]', '{\n{\n}\n']
     m = 40 if tier == 'quick' else 600
@@ -36,6 +48,8 @@ def cases(tier, rng):
         yield {'k': 'err', 's': s}
 
 def to_line(c):
+    if c['k'] == 'seq':
+        return None
     if c['k'] != 'line':
         return None
     o = c['o']
@@ -59,6 +73,21 @@ def _oracle(s, p, o, ln, col):
 
 def run_impl(c):
     from pylatexenc import _util
+    if c['k'] == 'seq':
+        s, o = c['s'], c['o']
+        if c['via'] == 'calc':
+            obj = _util.LineNumbersCalculator(s, line_number_offset=o[0], first_line_column_offset=o[1], column_offset=o[2])
+        else:
+            from pylatexenc import latexwalker
+            obj = latexwalker.LatexWalker(s, line_number_offset=o[0], first_line_column_offset=o[1], column_offset=o[2])
+        fail = None
+        for i, p in enumerate(c['ps']):
+            ln, col = obj.pos_to_lineno_colno(p)
+            msg = _oracle(s, p, o, ln, col)
+            if msg:
+                fail = {'kind': 'wrong-line-col', 'detail': 'lookup #%d (pos %d after %r): %s' % (i, p, c['ps'][:i], msg)}
+                break
+        return {'out': None, 'fail': fail, 'sig': 'seq:%d' % min(len(c['ps']), 6)}
     if c['k'] == 'line':
         s, p, o = c['s'], c['p'], c['o']
         calc = _util.LineNumbersCalculator(s, line_number_offset=o[0], first_line_column_offset=o[1], column_offset=o[2])
@@ -94,6 +123,16 @@ def run_impl(c):
         return {'out': None, 'fail': fail, 'sig': sig}
 
 def shrink_candidates(c):
+    if c.get('k') == 'seq':
+        ps = c['ps']
+        for i in range(len(ps)):
+            d = dict(c); d['ps'] = ps[:i] + ps[i+1:]
+            if d['ps']: yield d
+        s = c['s']
+        for i in range(len(s)):
+            d = dict(c); d['s'] = s[:i] + s[i+1:]; d['ps'] = [min(p, len(d['s'])) for p in ps]
+            yield d
+        return
     s = c['s']
     for i in range(len(s)):
         t = s[:i] + s[i+1:]
